@@ -23,6 +23,7 @@ class Effects:
         self.fields = {f["qname"] for f in fb.record(rec)["fields"]}
         self._memo = {}
         self._stack = []
+        self._may = {}
 
     def _member(self, n):
         n = strip_all_casts(n)
@@ -164,3 +165,58 @@ class Effects:
         self._stack.pop()
         self._memo[key] = (must, read_first)
         return must, read_first
+
+
+    def may_assign(self, fn, consts=None, _stack=None):
+        """Members that some path through fn (and its callees on *this, with constant arguments propagated and the
+        branches they decide pruned) assigns a plain value to — `m = expr`, `m.clear()` — as opposed to read-modify-write
+        (`++m`, `m += ..`).  Returns {member: [assignment node, ...]}."""
+        consts = dict(consts or {})
+        key = (fn.key, tuple(sorted(consts.items())))
+        if key in self._may:
+            return self._may[key]
+        _stack = _stack or []
+        if key in _stack or not fn.cfg_raw:
+            return {}
+        _stack = _stack + [key]
+        cfg = fn.cfg
+        seen = {cfg.entry}
+        st = [cfg.entry]
+        out = {}
+        while st:
+            b = st.pop()
+            for e in cfg.blocks[b].get("el", []):
+                n = fn.node(e) if e >= 0 else None
+                if n is None:
+                    continue
+                if n.get("k") == "assign":
+                    f = self._member(n["l"])
+                    if f:
+                        out.setdefault(f, []).append(n)
+                elif n.get("k") == "call":
+                    c = n.get("callee") or {}
+                    if "obj" in n:
+                        f = self._member(n["obj"])
+                        if f and c.get("nm") in RESET_METHODS:
+                            out.setdefault(f, []).append(n)
+                            continue
+                        o = strip_all_casts(n["obj"])
+                        if o.get("k") == "this" and c.get("rec") == self.rec:
+                            g = self.fb.resolve_call(n)
+                            if g is not None and g.cfg_raw:
+                                sub = {}
+                                for prm, a in zip(g.params, n.get("args", [])):
+                                    a0 = strip(a)
+                                    cv = const_value(a0)
+                                    if cv is not None:
+                                        sub[prm["decl"]] = cv
+                                    elif a0.get("k") == "ref" and a0.get("decl") in consts:
+                                        sub[prm["decl"]] = consts[a0["decl"]]
+                                for f2, ns in self.may_assign(g, sub, _stack).items():
+                                    out.setdefault(f2, []).extend(ns)
+            for s2 in self._pruned_succ(fn, b, consts):
+                if s2 is not None and s2 not in seen:
+                    seen.add(s2)
+                    st.append(s2)
+        self._may[key] = out
+        return out
